@@ -31,3 +31,48 @@ structure PsdOps (α M W : Type) where
   mapW : (α → α) → W → W
 
 end SigpyVerif.C11
+
+/-! ### list-level numpy operations used by the generated array bodies (`Gen/ProxBody.lean`) -/
+namespace SigpyVerif.C11
+
+/-- an n-D array: shape and row-major data (`ravel()` / `reshape` of a contiguous array keep `data`) -/
+structure Arr (β : Type) where
+  shape : List Int
+  data : List β
+
+/-- `a.ravel()`: one axis of length `a.size`, same row-major data -/
+def Arr.ravel {β : Type} (a : Arr β) : Arr β := ⟨[(a.data.length : Int)], a.data⟩
+/-- `a.reshape(sh)` (row-major data unchanged) -/
+def Arr.reshape {β : Type} (a : Arr β) (sh : List Int) : Arr β := ⟨sh, a.data⟩
+/-- a flat list as a 1-D array -/
+def Arr.ofFlat {β : Type} (l : List β) : Arr β := ⟨[(l.length : Int)], l⟩
+/-- Python `sum` of ints -/
+def lsumInt (l : List Int) : Int := l.foldr (· + ·) 0
+/-- an elementwise kernel applied to every entry (shape kept) -/
+def Arr.mapData {β γ : Type} (f : β → γ) (a : Arr β) : Arr γ := ⟨a.shape, a.data.map f⟩
+
+section
+variable {α : Type} [Zero α] [One α] [Add α] [NatCast α] [LT α] [DecidableLT α]
+
+/-- running sums started at `acc` -/
+def cumsumFrom (acc : α) : List α → List α
+  | [] => []
+  | a :: t => (acc + a) :: cumsumFrom (acc + a) t
+/-- `xp.cumsum(v)` -/
+def cumsumG (v : List α) : List α := cumsumFrom 0 v
+/-- `xp.sum(v)` / `xp.linalg.norm(v, 1)` of a non-negative 1-D array -/
+def lsum (v : List α) : α := v.foldr (· + ·) 0
+/-- `xp.arange(n)` -/
+def arangeG (n : Nat) : List α := (List.range n).map fun (k : Nat) => ((k : Nat) : α)
+/-- `xp.flatnonzero(m).max()`: the largest index holding `true`; `none` when there is none (numpy raises) -/
+def flatnonzeroMax : List Bool → Option Nat
+  | [] => none
+  | b :: t =>
+    match flatnonzeroMax t with
+    | some i => some (i + 1)
+    | none => if b then some 0 else none
+/-- the model's own sort (ascending merge sort on `¬ b < a`), used where numpy calls `xp.sort` -/
+def msort (l : List α) : List α := l.mergeSort fun a b => !decide (b < a)
+end
+
+end SigpyVerif.C11
